@@ -95,6 +95,14 @@ Definition list_cmp_g (k : list_kind) (l1 l2 : list prim) : comparison :=
   | ListZip => cmp_zip prim_cmp (isort prim_cmp l1) (isort prim_cmp l2)
   end.
 
+(* ---- within_cmp ---- *)
+Inductive within_kind := WithinExact | WithinTruncated.
+Definition within_cmp_g (k : within_kind) (m1 : Z) (e1 : N) (m2 : Z) (e2 : N) : comparison :=
+  match k with
+  | WithinExact => num_cmp m1 e1 m2 e2
+  | WithinTruncated => Z.compare (Z.quot m1 (10 ^ Z.of_N e1)) (Z.quot m2 (10 ^ Z.of_N e2))
+  end.
+
 (* ---- simple_comparison_expression_cmp: which fields, in which order ---- *)
 Inductive astep := ALhs | AOp | ANegFalseFirst | ANegTrueFirst | ARhs.
 Definition astep_cmp (s : astep) (x y : atom) : comparison :=
